@@ -943,7 +943,7 @@ CONC_LIGHT = ["ii", "rej", "syncs", "grow"]
 SCALED = (2, 3, 2)
 CONC_SCALED = ["burst", "ii2", "three2"]
 # "all" slices: the share of the programs whose schedules are emitted and replayed (1 / m), quick / thorough
-ALL_PICK = {"all_unit": (24, 3), "all_wgt": (60, 6), "all_exp": (60, 6)}
+ALL_PICK = {"all_unit": (24, 8), "all_wgt": (60, 20), "all_exp": (60, 20)}
 
 
 def conc_constants(prog, emit, real, dev, pick=(0, 0)):
